@@ -99,6 +99,10 @@ func newHistRun(r *ev.Run, w *world, cfg histCfg) *histRun {
 	// Demon's list holds the downloads its COMMAND_FS code tracks: the running transfers of
 	// that agent if this configuration opens them with COMMAND_FS, none if a BOF opens them
 	h.labels = append(h.labels, "transfer-list-reply(what the Demon tracks)+write(T0)")
+	// an open under T0's file id whose local file cannot be created (a name component longer
+	// than the file system takes), while T0 is not running: refused, nothing changes - and
+	// nothing of it is left behind for the proper open of T0 that may follow
+	h.labels = append(h.labels, "open-that-cannot-be-created(id of T0)")
 	return h
 }
 
@@ -117,6 +121,9 @@ func (h *histRun) decode(op int) (t int, kind string) {
 	}
 	if op == 3*u+4 {
 		return 0, "list-reply"
+	}
+	if op == 3*u+5 {
+		return 0, "uncreatable-open"
 	}
 	if op >= 3*u {
 		return u, []string{"write", "close"}[op-3*u]
@@ -154,6 +161,7 @@ func (h *histRun) step(hist []int) explore.StepResult {
 		m[i] = &mxfer{}
 	}
 	seq := 0
+	refusedCreate := false // an open under T0's id failed at the creation of its file (invisible in files and model: kept in the state key)
 	var last tree
 	fail := func(sig, what string, extra map[string]any) explore.StepResult {
 		d := map[string]any{"history": h.describe(hist), "legend": h.legend()}
@@ -174,6 +182,46 @@ func (h *histRun) step(hist []int) explore.StepResult {
 			w.post(x.ag, demonwire.Sub{Cmd: agent.COMMAND_TRANSFER, ReqID: w.req(x.ag), Body: rr})
 			t, kind = 3, "open"
 			x, mt = h.xfers[t], m[t]
+		}
+		if kind == "uncreatable-open" {
+			refusedCreate = true
+			long := strings.Repeat("n", 300) + ".bin"
+			rq := w.req(x.ag)
+			var bad demonwire.Sub
+			if h.cfg.open == "fs" {
+				bad = fsOpen(rq, x.id, 64, long)
+			} else {
+				bad = bofOpen(rq, x.id, 64, long)
+			}
+			last := i == len(hist)-1
+			var b0 tree
+			if last {
+				b0 = w.snap()
+			}
+			_, eff0 := w.post(x.ag, bad)
+			if h.cfg.open == "bof" {
+				w.giveBack(x.ag, rq)
+			}
+			if last {
+				a0 := w.snap()
+				d0 := diffTrees(b0, a0)
+				at := map[string]any{"failing_step": i, "operation": h.labels[op]}
+				if b := contain(d0, w.names[x.ag], known); b != nil {
+					at["breach"] = b
+					return fail("escape/history/"+b.Zone, fmt.Sprintf("an open of agent %s whose file cannot be created %s %s", w.names[x.ag], b.Kind, b.Path), at)
+				}
+				if accepted, _ := verdictOf(eff0); accepted {
+					return fail("content/uncreatable-open-accepted", "an open whose local file could not be created was reported as started", at)
+				}
+				for _, p := range d0.Added {
+					if strings.HasPrefix(a0[p], "file:") && !isConsoleLog(p) {
+						at["file"] = p
+						return fail("stray-write/uncreatable-open", "an open that was refused left a file behind", at)
+					}
+				}
+				h.r.Outcome("hist/uncreatable-open-refused")
+			}
+			continue
 		}
 		if kind == "list-reply" {
 			lr := (&demonwire.W{}).I32(agent.DEMON_COMMAND_TRANSFER_LIST)
@@ -393,6 +441,9 @@ func (h *histRun) step(hist []int) explore.StepResult {
 	}
 	// canonical key: model + what is on disk (console logs carry wall-clock stamps)
 	var b strings.Builder
+	if refusedCreate {
+		b.WriteString("refused-create|")
+	}
 	for t, y := range m {
 		fmt.Fprintf(&b, "T%d:%v/%v/%v/%d/%q/%s|", t, y.open, y.closed, y.opened > 0, y.writes, y.content, y.path)
 		for v, z := range m {
@@ -435,6 +486,9 @@ func (h *histRun) step(hist []int) explore.StepResult {
 		}
 		if _, k := h.decode(i); k == "list-reply" && !m[0].open {
 			continue // only meaningful while T0 is running
+		}
+		if _, k := h.decode(i); k == "uncreatable-open" && (m[0].open || m[0].opened > 0 || refusedCreate) {
+			continue // offered before T0's first open only
 		}
 		en = append(en, i)
 	}
